@@ -823,6 +823,13 @@ def run(model: Model, rep, tier: str) -> None:
     _dg_report(model, rep, "C18-R2", lambda n: n in ("to_meshtri",
                                                      "to_meshtet"),
                "the simplex mesh is built on garbage points", minimum=1)
+    from ..tags import report_oriented_remaps
+    if report_oriented_remaps(
+            model, rep, "C18-R1",
+            lambda f: f.name in ("restrict", "to_meshtri", "to_meshtet",
+                                 "remove_elements")) < 2:
+        raise AnalysisError("fewer than two surgery operations carry named "
+                            "boundaries over")
     rep.require_min("C18-R1", 8)
     rep.require_min("C18-R2", 9)
     rep.require_min("C18-R3", 5)
